@@ -13,18 +13,21 @@
 EXTENDS Integers, Sequences, FiniteSets, TLC
 
 CONSTANTS K, MaxFaults
-Formats == {"pdf-classic", "pdf-stream", "docx", "odt", "xlsx", "pptx", "epub", "html"}
+Formats == {"pdf-classic", "pdf-stream", "pdf-png", "pdf-tiff", "docx", "odt", "xlsx", "pptx", "epub", "html"}
 IsZip(f) == f \in {"docx", "odt", "xlsx", "pptx", "epub"}
-IsPdf(f) == f \in {"pdf-classic", "pdf-stream"}
+IsPdf(f) == f \in {"pdf-classic", "pdf-stream", "pdf-png", "pdf-tiff"}
+\* documents with object streams and cross-reference streams: numeric fields also sit inside encoded streams
+HasInStream(f) == f \in {"pdf-stream", "pdf-png"}
 Numbers == {"0", "-1", "2147483648", "9223372036854775807"}
 Targets == {"self", "ancestor", "missing"}
 
 \* the catalogue: fault kinds applicable to a format
 Kinds(f) == {"truncate", "unbalance"}
             \cup (IF IsPdf(f) THEN {"number", "retarget", "dropobj", "dupobj", "corruptstream"} ELSE {})
+            \cup (IF HasInStream(f) THEN {"instream"} ELSE {})
             \cup (IF IsZip(f) THEN {"number", "dropmember", "dupmember", "corruptstream"} ELSE {})
             \cup (IF f = "html" THEN {"number"} ELSE {})
-Param(k) == CASE k = "number" -> Numbers [] k = "retarget" -> Targets [] OTHER -> {"-"}
+Param(k) == CASE k \in {"number", "instream"} -> Numbers [] k = "retarget" -> Targets [] OTHER -> {"-"}
 FaultSpace(f) == UNION {{[kind |-> k, site |-> s, param |-> p] : s \in 0..(K - 1), p \in Param(k)} : k \in Kinds(f)}
 
 VARIABLES fmt, faults, calls
